@@ -485,5 +485,12 @@ theorem noPanic_codec : ∀ (t : Ty) (d : Rep t), NoPanic ((codec t).dec d)
   | .opt0 _, _ => noPanic_pure _
   | .ary l t, d => noPanic_ary l _ (noPanic_codec t) d
 
+/-- neither success nor a panic: an error -/
+theorem Res.eq_err_of {α} {r : Res α} (hnot : ∀ b, r ≠ Res.ok b) (hnp : r ≠ Res.panic) : r = Res.err := by
+  cases r with
+  | ok a => exact absurd rfl (hnot a)
+  | err => rfl
+  | panic => exact absurd rfl hnp
+
 end Lemmas
 end GoMC
